@@ -97,7 +97,14 @@ def gojson(o):
     """json text as Go's encoding/json writes it: compact, and <, >, & escaped as \\u003c, \\u003e, \\u0026"""
     return json.dumps(o, separators=(",", ":")).replace("<", "\\u003c").replace(">", "\\u003e").replace("&", "\\u0026")
 
+def boundary_string(rng):
+    """a JSON string whose encoded length sits at a varint boundary (1 -> 2 bytes at 128, 2 -> 3 bytes at 16384)"""
+    n = rng.choice([127, 128, 128, 129, 16383, 16384, 16384, 16385, 255, 256]) - 2
+    return json.dumps("".join(rng.choice("abcdefgh") for _ in range(n)))
+
 def gen_val(rng, vt):
+    if vt in ("str", "raw") and rng.random() < 0.05:
+        return hx(boundary_string(rng).encode())
     if vt == "int":
         return hx(str(rng.randint(-5, 50)).encode())
     if vt == "str":
@@ -523,6 +530,22 @@ def prof_persist(rng, n, tier):
     """C13 / C16 / C08 / C09 / C05: a persisted version, a batch of modifications, persist again; no cache"""
     out = []
     for i in range(n):
+        if i % 12 == 11:
+            # one wide node: the number of entries (and of links) of a node sits at a varint boundary
+            h = H("per%d" % i, rng, cache="none", bf=rng.choice([300, 1000]), kind=rng.choice([0, 1]))
+            pre = "i:%d" if h.kind == 0 else "u:%d"
+            t = h.new()
+            cnt = rng.choice([126, 127, 128, 129])
+            v = 1
+            while len(h.ref[t]) < cnt:
+                if v % h.bf:
+                    h.ins(t, pre % v, gen_val(rng, h.vt))
+                v += 1
+            x = h.load(h.mkroot(t)); h.observe(x)
+            h.ins(x, pre % (v + 1), gen_val(rng, h.vt)); h.ins(x, pre % (v + 3), gen_val(rng, h.vt))
+            x = h.load(h.mkroot(x)); h.observe(x)
+            out.append(h)
+            continue
         h = H("per%d" % i, rng, cache="none", bfs=BFS_ALL if tier == "thorough" else BFS_SMALL + [16])
         t = h.new()
         build_tree(h, t, rng.choice([0, 1, 4, 15, 40, 90]))
@@ -596,7 +619,7 @@ def prof_malformed(rng, n, tier):
             h.ops.append("loadord %d %d 0 %d text" % (r, h.nt, h.kind)); h.nt += 1
             out.append(h)
             continue
-        h = H("mal%d" % i, rng, cache=rng.choice(["none", "none", "big"]), kind=rng.choice([0, 0, 1, 2, 5]))
+        h = H("mal%d" % i, rng, cache=rng.choice(["none", "big"]), kind=rng.choice([0, 0, 1, 2, 5]))
         t = h.new()
         build_tree(h, t, rng.choice([0, 1, 2, 5, 15, 40]))
         if rng.random() < 0.15:
@@ -605,7 +628,7 @@ def prof_malformed(rng, n, tier):
         x = h.load(r); h.observe(x)                      # the guard is not vacuous: the right config loads
         for _ in range(rng.randint(2, 6)):
             r2 = h.nr; h.nr += 1
-            c = rng.choice(["fmt", "height", "bf", "kind", "store", "size"])
+            c = rng.choice(["fmt", "height", "bf", "kind", "store", "size", "raise", "raise"])
             h.roots[r2] = dict(h.roots[r])
             kind = h.kind
             store = 0
@@ -616,6 +639,10 @@ def prof_malformed(rng, n, tier):
                 h.ops.append("rootset %d %d - - - %s 0" % (r2, r, f if f == "empty" else hx(f)))
             elif c == "height":
                 h.ops.append("rootset %d %d - %d - - 0" % (r2, r, rng.choice([0, 1, 2, 3, 5, 9])))
+            elif c == "raise":
+                # a recorded height above the layers of the top node's keys: must be rejected whether the node
+                # comes from the store or from a warm cache
+                h.ops.append("rootset %d %d - %d - - 0" % (r2, r, rng.choice([7, 9, 12, 30])))
             elif c == "bf":
                 h.ops.append("rootset %d %d - - %d - 0" % (r2, r, rng.choice([2, 3, 4, 5, 7, 16, 64])))
             elif c == "size":
@@ -781,6 +808,8 @@ def prof_race(rng, n, tier):
         mutate(h, t0, rng.randint(1, 10))
         r1 = h.mkroot(t0)
         nthreads = rng.randint(2, 6)
+        replicas = rng.random() < 0.35      # the goroutines apply the same changes: their new nodes have the same names
+        script = None
         starts = []
         for th in range(1, nthreads + 1):
             # each goroutine gets its own tree: a clone made during setup, or a root it loads itself
@@ -793,6 +822,23 @@ def prof_race(rng, n, tier):
             h.nt = 100 * th + 10; h.nr = 100 * th; h.nc = 100 * th
             mark = len(h.ops)
             t = x if how == "clone" else h.load(x)
+            if replicas:
+                # the same changes in every goroutine (equal node names), persisted and reloaded through the shared
+                # cache, then changes of its own: a node one goroutine is still persisting must not reach another
+                if script is None:
+                    script = [(h.kg.key(), gen_val(rng, h.vt)) for _ in range(rng.randint(3, 20))]
+                for j, (k, v) in enumerate(script):
+                    h.ins(t, k, v)
+                    if j % 5 == 4:
+                        t = h.load(h.mkroot(t))
+                t = h.load(h.mkroot(t))
+                for (k, v) in script[: rng.randint(1, len(script))]:
+                    h.ins(t, k, gen_val(rng, h.vt))
+                h.observe(t)
+                t = h.load(h.mkroot(t))
+                h.observe(t)
+                h.ops[mark:] = ["@%d %s" % (th, o) for o in h.ops[mark:]]
+                continue
             for _ in range(rng.randint(5, 25 if tier == "quick" else 60)):
                 c = rng.random()
                 if c < 0.45:
@@ -816,6 +862,10 @@ def prof_race(rng, n, tier):
             h.observe(t)
             h.ops[mark:] = ["@%d %s" % (th, o) for o in h.ops[mark:]]
         h.opts["threads"] = nthreads
+        if replicas:
+            h.opts["slowstore"] = 2
+        elif rng.random() < 0.5:
+            h.opts["slowstore"] = 1
         out.append(h)
     return out
 
